@@ -359,4 +359,70 @@ theorem coversWraps_sound (n : ErrName) (hs : List Handler) (hcov : coversExcept
         exact absurd hx hm
       | inr hc => exact ih hc (by simpa [wrapsAllInto] using hwt)
 
+/-! ### what a marking walk leaves behind -/
+
+section VisitPost
+variable {α : Type} [DecidableEq α] (next : List α → α → List α)
+
+/-- postcondition of one walk: the remaining set only shrinks, stays duplicate-free, and no longer contains the start element -/
+def VisitPost (f : Nat) : Prop :=
+  ∀ (rem trace : List α) (p : α) (r : List α × List α), rem.Nodup → visit next f (rem, trace) p = some r →
+    (∀ x ∈ r.1, x ∈ rem) ∧ r.1.Nodup ∧ p ∉ r.1
+
+theorem visit_fold_post (f : Nat) (ih : VisitPost next f) :
+    ∀ (qs : List α) (st r : List α × List α), st.1.Nodup → qs.foldlM (fun st q => visit next f st q) st = some r →
+      (∀ x ∈ r.1, x ∈ st.1) ∧ r.1.Nodup ∧ (∀ q ∈ qs, q ∉ r.1) := by
+  intro qs
+  induction qs with
+  | nil =>
+    intro st r hnd h
+    simp only [List.foldlM_nil, Option.pure_def, Option.some.injEq] at h
+    subst h
+    exact ⟨fun _ hx => hx, hnd, fun _ hq => by cases hq⟩
+  | cons q qs ihq =>
+    intro st r hnd h
+    simp only [List.foldlM_cons, Option.bind_eq_bind] at h
+    cases hv : visit next f st q with
+    | none => rw [hv] at h; simp at h
+    | some r1 =>
+      rw [hv] at h
+      simp only [Option.bind_some] at h
+      obtain ⟨hsub1, hnd1, hq1⟩ := ih st.1 st.2 q r1 hnd hv
+      obtain ⟨hsub2, hnd2, hqs2⟩ := ihq r1 r hnd1 h
+      refine ⟨fun x hx => hsub1 x (hsub2 x hx), hnd2, ?_⟩
+      intro q' hq'
+      cases List.mem_cons.mp hq' with
+      | inl heq => subst heq; exact fun hmem => hq1 (hsub2 _ hmem)
+      | inr hin => exact hqs2 q' hin
+
+theorem visit_post : ∀ f, VisitPost next f := by
+  intro f
+  induction f with
+  | zero => intro rem trace p r _ h; simp [visit] at h
+  | succ f ih =>
+    intro rem trace p r hnd h
+    unfold visit at h
+    by_cases hp : p ∈ rem
+    · simp only [hp, if_true] at h
+      have hnd' : (rem.erase p).Nodup := hnd.erase p
+      obtain ⟨hsub, hndr, _⟩ := visit_fold_post next f ih (next (rem.erase p) p) (rem.erase p, trace ++ [p]) r hnd' h
+      refine ⟨fun x hx => List.mem_of_mem_erase (hsub x hx), hndr, ?_⟩
+      intro hmem
+      have := hsub p hmem
+      exact ((List.Nodup.mem_erase_iff hnd).mp this).1 rfl
+    · simp only [hp, if_false, Option.some.injEq] at h
+      subst h
+      exact ⟨fun _ hx => hx, hnd, hp⟩
+
+/-- every element `next` names right after the start element was taken out is gone at the end -/
+theorem visit_clears_next (f : Nat) (rem trace : List α) (p : α) (r : List α × List α) (hnd : rem.Nodup) (hp : p ∈ rem)
+    (h : visit next (f + 1) (rem, trace) p = some r) :
+    (∀ x ∈ r.1, x ∈ rem.erase p) ∧ ∀ q ∈ next (rem.erase p) p, q ∉ r.1 := by
+  unfold visit at h
+  simp only [hp, if_true] at h
+  obtain ⟨hsub, _, hq⟩ := visit_fold_post next f (visit_post next f) (next (rem.erase p) p) (rem.erase p, trace ++ [p]) r (hnd.erase p) h
+  exact ⟨hsub, hq⟩
+
+end VisitPost
+
 end Tranp.Errors
